@@ -387,6 +387,14 @@ impl Lut {
     }
 }
 
+#[cfg(volute_verif)]
+impl Lut {
+    /// Verification hook: apply one successor step to the table, and return true if it didn't roll back
+    pub fn verif_next(&mut self) -> bool {
+        next_inplace(self.num_vars, self.table.as_mut())
+    }
+}
+
 #[doc(hidden)]
 pub struct LutIterator {
     lut: Lut,
